@@ -523,7 +523,10 @@ class Doist(tyming.Tymist):
             doers is list of doers to remove.
 
         """
-        rdoers = [doer for doer in doers if doer in self.doers] # ensure in .doers
+        rdoers = []
+        for doer in doers:  # ensure in .doers and unique
+            if doer in self.doers and doer not in rdoers:
+                rdoers.append(doer)
         rdeeds = deque()  # fresh deque for deeds to remove
         ldeeds = deque()  # deeds to remove left of marker, not yet run this cycle
         marked = False  # True once run through once marker seen
@@ -1413,7 +1416,10 @@ class DoDoer(Doer):
             doers is list of doers to remove.
 
         """
-        rdoers = [doer for doer in doers if doer in self.doers] # ensure in .doers
+        rdoers = []
+        for doer in doers:  # ensure in .doers and unique
+            if doer in self.doers and doer not in rdoers:
+                rdoers.append(doer)
         rdeeds = deque()  # fresh deque for deeds to remove
         ldeeds = deque()  # deeds to remove left of marker, not yet run this cycle
         marked = False  # True once run through once marker seen
